@@ -32,7 +32,10 @@ def _digest_range(args):
     cfg = mod.config('quick', seed) if hasattr(mod, 'config') else {}
     out = []
     for stream in mod.STREAMS:
+        cap = mod.STREAMS[stream].get('selftest_max')      # sweep-style streams cost seconds per run
         for i in range(lo, hi):
+            if cap is not None and i >= cap:
+                break
             rng = seeds.rng_for(seed, prop + '/' + stream, i)
             sc = mod.gen(stream, rng, i, cfg)
             sc['_stream'], sc['_run'], sc['_seed'] = stream, i, seed
